@@ -11,6 +11,40 @@ BASE_NOTE = ("Trusted base: rustc front end/MIR construction as dumped by engine
              "crates assumed total. ")
 
 CLAIMS = {
+    "C07": dict(
+        category="other",
+        technique="mod-set and reset-value analysis by abstract interpretation over MIR against a reset-class table",
+        text=("cpu_reset, master_reset (RawMachine and Machine) and Machine::load are abstractly interpreted on a machine whose "
+              "every field is unknown; the interpreter's write log gives the exact set of written leaf fields, which is compared "
+              "in both directions with the reset class of every field (spec/reset_classes.toml; an unclassified new field fails "
+              "closed), and the value left in every must-reset field is compared with the constant RawMachine::new() assigns. "
+              "This covers every history because nothing about the prior state is assumed."),
+        note=("Decides: exact reset coverage and power-on values for all 40 leaf fields, load = master reset + RAM clear + image "
+              "copy shape + limits, NotSet never stored. Not decided: cycle-for-cycle equality with a fresh machine as an executed "
+              "comparison (implied for programs that read no surviving field; the surviving fields are listed in the evidence)."),
+        design="3/C07"),
+    "C10": dict(
+        category="proof",
+        technique="decoder-constant partition + abstract interpretation of Bus::read/Bus::write per address cell; def-use identity of RAM index/value; field-writer index",
+        text=("The 256 addresses are partitioned by the constants the two decoders compare against; each cell is interpreted "
+              "abstractly with byte and bus unknown, giving per cell the mod-set of a write and the storage a read returns, which "
+              "must match the address map; RAM index/value identity is shown by def-use chains (no arithmetic between the address "
+              "parameter and the index); reads are pure (&self, Freeze types, empty write log); register fields have only their "
+              "documented writers."),
+        note=("Decides all clauses of DESIGN 3/C10. The sequence-level statement (later reads return the last write) follows for a "
+              "plain array from index identity and single writers."),
+        design="3/C10"),
+    "C13": dict(
+        category="proof",
+        technique="panic-site enumeration over MIR + abstract interpretation (intervals, finite sets, float intervals) of every stimulus entry point",
+        text=("Every assert terminator (bounds, overflow, division) and every call to a panicking function reachable from the "
+              "public functions of the machine modules is an obligation; each is discharged by abstract interpretation of all "
+              "entry points with the whole machine state and all arguments unknown (only two struct invariants are assumed, and "
+              "both are proved by writer/caller analysis). A site the analysis never reached is not discharged silently."),
+        note=("Decides panic- and overflow-freedom of the emulator core for every RAM image, state and stimulus value incl. NaN/inf. "
+              "Not decided: non-termination (C11), panics inside the log crate. Excluded entry points (with reasons in the evidence): "
+              "program loading (C06), MicroprogramRam::set_address and its Index impl (caller-chosen raw index)."),
+        design="3/C13"),
     "C05": dict(
         category="proof",
         technique="abstract interpretation over MIR (interval cells, per-entry-point state effects) + complete field-writer index",
